@@ -1773,7 +1773,7 @@ def cross_oracle_c03(all_runs):
 
 PROPS["C03"] = {
     "cross_oracle": cross_oracle_c03,
-    "modules": ["NibiruProofs.C03", "NibiruProofs.SDBFrames", "NibiruProofs.SDBNested", "NibiruProofs.SDBObs", "NibiruProofs.SDBTx"],
+    "modules": ["NibiruProofs.C03", "NibiruProofs.SDBFrames", "NibiruProofs.SDBNested", "NibiruProofs.SDBObs", "NibiruProofs.SDBTx", "NibiruProofs.SDBKeep"],
     "prefix": "C03_",
     "runs": [{"model": "gspecnib", "n_quick": 150, "n_thorough": 3000, "nontrivial": r"^P:"},
              {"model": "gspecgeth", "n_quick": 150, "n_thorough": 3000, "nontrivial": r"^P:"},
